@@ -207,6 +207,27 @@ pub fn run(args: &Args) -> i32 {
         check_chunk(&b, loc, true);
     });
 
+    // total length off the 32-bit grid with self-consistent contents: padding shortened / lengthened by 1..=3 bytes
+    // (zeros), payload CRC re-derived over what is there
+    rep.run("unaligned-lengths", 300 * 6, 30, true, "payload length 1..=300 x total length changed by {-3, -2, -1, +1, +2, +3} zero bytes before the payload CRC (as far as the padding allows), CRCs re-derived", |idx, loc| {
+        let len = 1 + (idx / 6) as usize;
+        let delta = [-3i64, -2, -1, 1, 2, 3][(idx % 6) as usize];
+        let mut b = mk_chunk(len, 1, 1, 0, payload_bytes(len, 5));
+        let crc_pos = b.len() - 4;
+        let pad = crc_pos - 20 - len;
+        if delta < 0 {
+            if (-delta) as usize > pad {
+                return;
+            }
+            b.drain(crc_pos - (-delta) as usize..crc_pos);
+        } else {
+            b.splice(crc_pos..crc_pos, std::iter::repeat(0u8).take(delta as usize));
+        }
+        // chunk_fix_crcs assumes the CRC word is the last four bytes
+        chunk_fix_crcs(&mut b);
+        check_chunk(&b, loc, true);
+    });
+
     // slices far longer than the declared payload (a length check done in 16-bit arithmetic wraps at 65536)
     let over_lens = [1usize, 2, 3, 4, 5, 100, 65532, 65533, 65534, 65535];
     let over_extra = [65528usize, 65532, 65536, 65540, 131072, 196608];
